@@ -19,12 +19,13 @@ import (
 func init() { Extractors["C06"] = c06Facts }
 
 type c06Summary struct {
-	MergeClauses map[string]string `json:"merge_clauses"`
-	CloneCopied  []string          `json:"clone_copied"`
-	CloneShared  []string          `json:"clone_shared"`
-	CloneMaps    []string          `json:"clone_fresh_maps"`
-	SelfAppends  []string          `json:"chain_methods_appending_to_statement_slices"`
-	WhereSwap    string            `json:"where_build_swap"`
+	MergeClauses   map[string]string `json:"merge_clauses"`
+	CloneCopied    []string          `json:"clone_copied"`
+	CloneShared    []string          `json:"clone_shared"`
+	CloneMaps      []string          `json:"clone_fresh_maps"`
+	SelfAppends    []string          `json:"chain_methods_appending_to_statement_slices"`
+	UnresetAppends []string          `json:"appends_onto_shared_slices_without_fresh_reset"`
+	WhereSwap      string            `json:"where_build_swap"`
 }
 
 func recvType(fd *ast.FuncDecl) string {
@@ -226,32 +227,195 @@ func c06Facts(repo string, w io.Writer) (interface{}, error) {
 			return true
 		})
 	}
-	// chain methods that append onto a slice held by the statement: tx.Statement.X = append(tx.Statement.X, ...)
-	af, err = parser.ParseFile(fset, filepath.Join(repo, "chainable_api.go"), nil, 0)
-	if err != nil {
-		return nil, err
-	}
-	seen := map[string]bool{}
-	for _, d := range af.Decls {
-		fd, ok := d.(*ast.FuncDecl)
-		if !ok || fd.Body == nil {
+	// chain methods (functions of chainable_api.go) that append in place onto a slice held by the
+	// statement, directly (x.Statement.F = append(x.Statement.F, ...)) or through one call of an
+	// unexported helper method of Statement / DB declared anywhere in the package; and, for the
+	// slices Statement.clone SHARES (not copied), whether every such append is preceded in the same
+	// function - in the same or an enclosing block - by an assignment of a fresh slice to that field
+	// of the instance (composite literal, make, append(make...)/append(nil...), nil).
+	helpers := map[string][]string{} // unexported method name -> statement fields it appends onto
+	rootFiles, _ := filepath.Glob(filepath.Join(repo, "*.go"))
+	var chainFile *ast.File
+	for _, f := range rootFiles {
+		if strings.HasSuffix(f, "_test.go") {
 			continue
 		}
-		ast.Inspect(fd.Body, func(n ast.Node) bool {
-			if c, ok := n.(*ast.CallExpr); ok {
-				if id, ok := c.Fun.(*ast.Ident); ok && id.Name == "append" && len(c.Args) > 0 {
-					first := exprString(c.Args[0])
-					if strings.HasPrefix(first, "tx.Statement.") {
-						seen[strings.TrimPrefix(first, "tx.Statement.")] = true
+		pf, err := parser.ParseFile(fset, f, nil, 0)
+		if err != nil {
+			return nil, err
+		}
+		if filepath.Base(f) == "chainable_api.go" {
+			chainFile = pf
+		}
+		for _, d := range pf.Decls {
+			fd, ok := d.(*ast.FuncDecl)
+			if !ok || fd.Body == nil || fd.Recv == nil || len(fd.Recv.List[0].Names) == 0 || ast.IsExported(fd.Name.Name) {
+				continue
+			}
+			rt, rv := recvType(fd), fd.Recv.List[0].Names[0].Name
+			prefix := ""
+			switch rt {
+			case "Statement":
+				prefix = rv + "."
+			case "DB":
+				prefix = rv + ".Statement."
+			default:
+				continue
+			}
+			ast.Inspect(fd.Body, func(n ast.Node) bool {
+				if c, ok := n.(*ast.CallExpr); ok {
+					if id, ok := c.Fun.(*ast.Ident); ok && id.Name == "append" && len(c.Args) > 0 {
+						if first := exprString(c.Args[0]); strings.HasPrefix(first, prefix) && !strings.Contains(strings.TrimPrefix(first, prefix), ".") {
+							helpers[fd.Name.Name] = append(helpers[fd.Name.Name], strings.TrimPrefix(first, prefix))
+						}
+					}
+				}
+				return true
+			})
+		}
+	}
+	if chainFile == nil {
+		return nil, fmt.Errorf("chainable_api.go not found")
+	}
+	copied := map[string]bool{}
+	for _, c := range sum.CloneCopied {
+		copied[c] = true
+	}
+	isFresh := func(e ast.Expr) bool {
+		switch x := e.(type) {
+		case *ast.CompositeLit:
+			return true
+		case *ast.Ident:
+			return x.Name == "nil"
+		case *ast.CallExpr:
+			if id, ok := x.Fun.(*ast.Ident); ok {
+				if id.Name == "make" {
+					return true
+				}
+				if id.Name == "append" && len(x.Args) > 0 {
+					if c, ok := x.Args[0].(*ast.CallExpr); ok {
+						if cid, ok := c.Fun.(*ast.Ident); ok && cid.Name == "make" {
+							return true
+						}
+						if len(c.Args) == 1 { // a conversion such as []string(nil)
+							if a, ok := c.Args[0].(*ast.Ident); ok && a.Name == "nil" {
+								return true
+							}
+						}
+					}
+				}
+			}
+		}
+		return false
+	}
+	seen := map[string]bool{}
+	unreset := map[string]bool{}
+	// appendsIn: statement fields appended onto in place by the expressions of one simple statement
+	appendsIn := func(n ast.Node) []string {
+		var out []string
+		ast.Inspect(n, func(m ast.Node) bool {
+			if _, ok := m.(*ast.BlockStmt); ok && m != n {
+				return false // nested blocks are walked by walk()
+			}
+			c, ok := m.(*ast.CallExpr)
+			if !ok {
+				return true
+			}
+			if id, ok := c.Fun.(*ast.Ident); ok && id.Name == "append" && len(c.Args) > 0 {
+				first := exprString(c.Args[0])
+				for _, inst := range []string{"tx.Statement.", "db.Statement."} {
+					if strings.HasPrefix(first, inst) && !strings.Contains(strings.TrimPrefix(first, inst), ".") {
+						out = append(out, inst[:2]+":"+strings.TrimPrefix(first, inst))
+					}
+				}
+			}
+			if sel, ok := c.Fun.(*ast.SelectorExpr); ok && !ast.IsExported(sel.Sel.Name) {
+				recv := exprString(sel.X)
+				if recv == "tx.Statement" || recv == "tx" || recv == "db.Statement" || recv == "db" {
+					for _, f := range helpers[sel.Sel.Name] {
+						out = append(out, recv[:2]+":"+f)
 					}
 				}
 			}
 			return true
 		})
+		return out
+	}
+	var walk func(fn string, list []ast.Stmt, reset map[string]bool)
+	walk = func(fn string, list []ast.Stmt, reset map[string]bool) {
+		cur := map[string]bool{}
+		for k := range reset {
+			cur[k] = true
+		}
+		nested := func(st ast.Stmt) [][]ast.Stmt {
+			var bs [][]ast.Stmt
+			ast.Inspect(st, func(m ast.Node) bool {
+				switch b := m.(type) {
+				case *ast.BlockStmt:
+					if ast.Node(b) != ast.Node(st) {
+						bs = append(bs, b.List)
+						return false
+					}
+				case *ast.CaseClause:
+					bs = append(bs, b.Body)
+					return false
+				case *ast.CommClause:
+					bs = append(bs, b.Body)
+					return false
+				}
+				return true
+			})
+			return bs
+		}
+		for _, st := range list {
+			if blk, ok := st.(*ast.BlockStmt); ok {
+				walk(fn, blk.List, cur)
+				continue
+			}
+			if cc, ok := st.(*ast.CaseClause); ok {
+				walk(fn, cc.Body, cur)
+				continue
+			}
+			if cc, ok := st.(*ast.CommClause); ok {
+				walk(fn, cc.Body, cur)
+				continue
+			}
+			for _, a := range appendsIn(st) {
+				inst, field := a[:2], a[3:]
+				seen[field] = true
+				if inst == "db" || (!copied[field] && !cur[field]) {
+					unreset[fn+"."+field] = true
+				}
+			}
+			if as, ok := st.(*ast.AssignStmt); ok && len(as.Lhs) == len(as.Rhs) {
+				for i, l := range as.Lhs {
+					if ls := exprString(l); strings.HasPrefix(ls, "tx.Statement.") && isFresh(as.Rhs[i]) {
+						cur[strings.TrimPrefix(ls, "tx.Statement.")] = true
+					}
+				}
+			}
+			for _, b := range nested(st) {
+				walk(fn, b, cur)
+			}
+		}
+	}
+	for _, d := range chainFile.Decls {
+		fd, ok := d.(*ast.FuncDecl)
+		if !ok || fd.Body == nil {
+			continue
+		}
+		if fd.Recv != nil && !ast.IsExported(fd.Name.Name) && recvType(fd) == "Statement" {
+			continue // a helper: accounted for at its call sites
+		}
+		walk(fd.Name.Name, fd.Body.List, map[string]bool{})
 	}
 	for k := range seen {
 		sum.SelfAppends = append(sum.SelfAppends, k)
 	}
+	for k := range unreset {
+		sum.UnresetAppends = append(sum.UnresetAppends, k)
+	}
+	sort.Strings(sum.UnresetAppends)
 	sort.Strings(sum.CloneCopied)
 	sort.Strings(sum.CloneShared)
 	sort.Strings(sum.CloneMaps)
@@ -286,6 +450,7 @@ func c06Facts(repo string, w io.Writer) (interface{}, error) {
 	strs("clone_shared", sum.CloneShared)
 	strs("clone_fresh_maps", sum.CloneMaps)
 	strs("self_appends", sum.SelfAppends)
+	strs("unreset_appends", sum.UnresetAppends)
 	fmt.Fprintf(w, "Definition where_build_swap : mclass := %s.\n", sum.WhereSwap)
 	return sum, nil
 }
